@@ -6,6 +6,7 @@
 -/
 import EG.Lemmas.JoinsPolyScan
 import EG.Model.ThickTriangle
+import EG.Lemmas.TriScanlinesLoop
 set_option linter.unusedSimpArgs false
 namespace EG
 namespace Joins
@@ -625,8 +626,13 @@ structure TSR (d : Pt) (it' it : TriScanlines) : Prop where
 def TriScanItemR (d : Pt) (r' r : (Scanline × PointType) × TriScanlines) : Prop :=
   r'.1.1 = shiftS r.1.1 d ∧ r'.1.2 = r.1.2 ∧ TSR d r'.2 r.2
 
+/-- Related results of the (non-fused) `ScanlineIterator::next`: related optional items, related
+successor states — also after a `None`. -/
+def TriScanStepR (d : Pt) (r' r : Option (Scanline × PointType) × TriScanlines) : Prop :=
+  OptRel (fun x' x => x'.1 = shiftS x.1 d ∧ x'.2 = x.2) r'.1 r.1 ∧ TSR d r'.2 r.2
+
 theorem TriScanlines.next_moved {d : Pt} {it' it : TriScanlines} (h : TSR d it' it) :
-    OptRel (OptRel (TriScanItemR d)) it'.next it.next := by
+    OptRel (TriScanStepR d) it'.next it.next := by
   unfold TriScanlines.next
   have hn := TriIntersections.next_moved h.ints
   cases n' : it'.intersections.next with
@@ -636,7 +642,7 @@ theorem TriScanlines.next_moved {d : Pt} {it' it : TriScanlines} (h : TSR d it' 
     | some r =>
       rw [n', n] at hn
       obtain ⟨h1, h2, h3⟩ := hn
-      exact ⟨h1, h2, h.rs, h.re, h3⟩
+      exact ⟨⟨h1, h2⟩, h.rs, h.re, h3⟩
   | none =>
     cases n : it.intersections.next with
     | some r => rw [n', n] at hn; exact hn.elim
@@ -663,7 +669,8 @@ theorem TriScanlines.next_moved {d : Pt} {it' it : TriScanlines} (h : TSR d it' 
             cases m' : x'.next with
             | none =>
               cases m : x.next with
-              | none => trivial
+              | none =>
+                exact ⟨trivial, by show it.rowsStart + d.y + 1 = it.rowsStart + 1 + d.y; omega, rfl, hx⟩
               | some v => rw [m', m] at hn2; exact hn2.elim
             | some v' =>
               cases m : x.next with
@@ -671,10 +678,38 @@ theorem TriScanlines.next_moved {d : Pt} {it' it : TriScanlines} (h : TSR d it' 
               | some v =>
                 rw [m', m] at hn2
                 obtain ⟨h1, h2, h3⟩ := hn2
-                exact ⟨h1, h2, by show it.rowsStart + d.y + 1 = it.rowsStart + 1 + d.y; omega, rfl, h3⟩
+                exact ⟨⟨h1, h2⟩, by show it.rowsStart + d.y + 1 = it.rowsStart + 1 + d.y; omega, rfl, h3⟩
       · have hr' : ¬ it.rowsStart + d.y < it.rowsEnd + d.y := by omega
         simp only [hr, hr', ↓reduceIte]
-        trivial
+        exact ⟨trivial, h⟩
+
+/-- The same for the view of a loop that stops at the first `None`. -/
+theorem TriScanlines.nextLoop_moved {d : Pt} {it' it : TriScanlines} (h : TSR d it' it) :
+    OptRel (OptRel (TriScanItemR d)) it'.nextLoop it.nextLoop := by
+  have hn := TriScanlines.next_moved h
+  unfold TriScanlines.nextLoop
+  cases n' : it'.next with
+  | none =>
+    cases n : it.next with
+    | none => trivial
+    | some r => rw [n', n] at hn; exact hn.elim
+  | some r' =>
+    cases n : it.next with
+    | none => rw [n', n] at hn; exact hn.elim
+    | some r =>
+      rw [n', n] at hn
+      obtain ⟨o', s'⟩ := r'
+      obtain ⟨o, s0⟩ := r
+      obtain ⟨h1, h2⟩ := hn
+      cases o' with
+      | none =>
+        cases o with
+        | none => trivial
+        | some x => exact h1.elim
+      | some x' =>
+        cases o with
+        | none => exact h1.elim
+        | some x => exact ⟨h1.1, h1.2, h2⟩
 
 /-- A typed scanline moved by `d`. -/
 def shiftTyped (r : Scanline × PointType) (d : Pt) : Scanline × PointType := (shiftS r.1 d, r.2)
@@ -685,14 +720,14 @@ theorem TriScanlines.toListFuel_moved {d : Pt} (fuel : Nat) {it' it : TriScanlin
   | zero => exact rfl
   | succ fuel ih =>
     unfold TriScanlines.toListFuel
-    have hn := TriScanlines.next_moved h
-    cases h1 : it'.next with
+    have hn := TriScanlines.nextLoop_moved h
+    cases h1 : it'.nextLoop with
     | none =>
-      cases h2 : it.next with
+      cases h2 : it.nextLoop with
       | none => trivial
       | some r => rw [h1, h2] at hn; exact hn.elim
     | some r' =>
-      cases h2 : it.next with
+      cases h2 : it.nextLoop with
       | none => rw [h1, h2] at hn; exact hn.elim
       | some r =>
         rw [h1, h2] at hn
